@@ -390,3 +390,21 @@ def c14(ctx):
                     trace_module="Trace_C14", sigfn=V.default_sig,
                     assumptions=["TLC/SANY and the JVM", "Pmt/Psi/Crc specs (C06, C13)", "elementary PIDs within a PMT are distinct",
                                  "the PIDs named by the error are read from the digits of the error text, in order"])
+
+
+# ---------------------------------------------------------------- C08
+
+@prop("C08", "Trace_C08")
+def c08(ctx):
+    V.mc(ctx, "MC_C08", workers=8)
+    summ = V.gen_traces(ctx, shards=12)
+    V.validate(ctx, "Trace_C08", summ, V.default_sig, par=12, timeout=3000)
+    return V.finish(ctx, "model_checking",
+                    rule="MC: structural consistency of Scte35!SectionOf (section_length, splice_command_length, descriptor_loop_length, every descriptor_length, CRC residue, adjusted PTS wrap) on "
+                         "14 commands x 12 descriptor lists x pts_adjustment x tier. B3: NewSCTE35 on generated sections (splice_null / time_signal / splice_insert in every mode, 0..3 descriptors mixing "
+                         "segmentation descriptors - cancelled, program/component mode with 33-bit offsets, 40-bit durations, restriction flags, single UPID / MID lists, sub-segments - and foreign "
+                         "descriptors, values biased to high bits, pointer_field 0..5) and on sections outside the supported syntax (other command types, encrypted, wrong table id, non-CUEI identifier, "
+                         "commands without a time). TLC first checks bytes = pointer ++ SectionOf(abs), then every getter field by field or the rejection class. "
+                         "class = (command kind and mode, descriptor count, result)",
+                    trace_module="Trace_C08", sigfn=V.default_sig,
+                    assumptions=["TLC/SANY and the JVM", "Wide/Crc modules", "restriction flags are not compared when delivery is not restricted; cw_index and protocol_version have no getter"])
